@@ -33,7 +33,7 @@ def main():
     sh("git -C /repo archive HEAD | tar -x -C %s && find %s -type f -exec touch {} +" % (wt, wt), "/")  # fresh mtimes: cargo must not reuse an artefact built from another copy
     os.makedirs(os.path.join(wt, "tests"), exist_ok=True)
     shutil.copy(demo, os.path.join(wt, "tests", "seed_demo.rs"))
-    env = dict(os.environ, CARGO_TARGET_DIR="/tmp/seedchk/target", CARGO_NET_OFFLINE="true")
+    env = dict(os.environ, CARGO_TARGET_DIR="/tmp/seedchk/target-%s" % sid, CARGO_NET_OFFLINE="true")
     res = dict(seed=sid, property=prop)
     # the demo must pass without the change in both profiles when the author mentions --release, and fail with the
     # change in at least one of them (a bug may hide in either profile)
